@@ -63,6 +63,7 @@ func (m *fakeMessaging) SendMessage(ctx context.Context, msg p2pmsg.Message, _ .
 	if !ok {
 		return errors.New("unexpected message type")
 	}
+	slowDown(string(e.PublicKey))
 	m.mu.Lock()
 	defer m.mu.Unlock()
 	m.sent = append(m.sent, handed{string(e.PublicKey), e.ActivationBlock, e.KeyperConfigIndex, e.Eon})
@@ -70,6 +71,14 @@ func (m *fakeMessaging) SendMessage(ctx context.Context, msg p2pmsg.Message, _ .
 		return errors.New("refused")
 	}
 	return nil
+}
+
+// slowDown makes the hand-over of a key named slow-… take longer than the polling interval of the loop scenario
+// (a callback waiting for a mined transaction, a slow publish): accepted all the same.
+func slowDown(pk string) {
+	if strings.HasPrefix(pk, "slow-") {
+		time.Sleep(30 * time.Millisecond)
+	}
 }
 
 func addr(i int) common.Address {
@@ -282,6 +291,7 @@ func Run(cfg Config) (int, error) {
 			if err := ctx.Err(); err != nil {
 				return err
 			}
+			slowDown(string(k.PublicKey))
 			cmu.Lock()
 			defer cmu.Unlock()
 			called = append(called, handed{string(k.PublicKey), k.ActivationBlock, k.KeyperConfigIndex, k.Eon})
@@ -308,16 +318,19 @@ func Run(cfg Config) (int, error) {
 			}
 			return false
 		}
-		addKey := func(pk string, eon int64) {
+		addKeys := func(pks []string, eon int64) {
 			st := srv.State().(*kdb.DB).Clone().(*kdb.DB)
 			if len(st.TendermintBatchConfig) == 0 {
 				st.TendermintBatchConfig = append(st.TendermintBatchConfig, kdb.TendermintBatchConfigRow{KeyperConfigIndex: 0, Height: 1,
 					Keypers: shdb.EncodeAddresses([]common.Address{addr(10), me}), Threshold: 2, Started: true, ActivationBlockNumber: 100})
 			}
-			st.Eons = append(st.Eons, kdb.EonRow{Eon: eon, Height: 5, ActivationBlockNumber: 100, KeyperConfigIndex: 0})
-			st.OutgoingEonKeys = append(st.OutgoingEonKeys, kdb.OutgoingEonKeyRow{EonPublicKey: []byte(pk), Eon: eon})
+			for i, pk := range pks {
+				st.Eons = append(st.Eons, kdb.EonRow{Eon: eon + int64(i), Height: 5, ActivationBlockNumber: 100, KeyperConfigIndex: 0})
+				st.OutgoingEonKeys = append(st.OutgoingEonKeys, kdb.OutgoingEonKeyRow{EonPublicKey: []byte(pk), Eon: eon + int64(i)})
+			}
 			srv.SetState(st)
 		}
+		addKey := func(pk string, eon int64) { addKeys([]string{pk}, eon) }
 		waitFor := func(pk string, d time.Duration) bool {
 			for end := time.Now().Add(d); time.Now().Before(end); time.Sleep(5 * time.Millisecond) {
 				if seenKey(pk) {
@@ -334,6 +347,9 @@ func Run(cfg Config) (int, error) {
 		time.Sleep(time.Duration(10+10*lp%50) * time.Millisecond)
 		addKey("loop-key-2", 2)
 		second := waitFor("loop-key-2", 2*time.Second)
+		// three keys completed within one interval, each hand-over taking longer than the interval
+		addKeys([]string{"slow-3", "slow-4", "slow-5"}, 3)
+		slow := waitFor("slow-3", 2*time.Second) && waitFor("slow-4", 2*time.Second) && waitFor("slow-5", 2*time.Second)
 		cancel()
 		<-done
 		pool.Close()
@@ -343,6 +359,9 @@ func Run(cfg Config) (int, error) {
 		if !first || !second {
 			violate("spec", "not-all-handed", fmt.Sprintf("polling loop (mode %s, interval 20 ms): the first key (refused by the mechanism) was offered=%v; a key recorded after that failed tick was handed over within 2 s=%v", mode, first, second),
 				[]string{"loop: key 1 pending (mechanism refuses it), loop started, key 2 recorded after the failed tick"})
+		} else if !slow {
+			violate("spec", "not-all-handed", fmt.Sprintf("polling loop (mode %s, interval 20 ms): three keys pending at one tick, the mechanism takes 30 ms for each and accepts: not all of them were handed over within 2 s", mode),
+				[]string{"loop: keys slow-3 slow-4 slow-5 recorded together, each hand-over takes 30 ms"})
 		}
 	}
 	lines := []string{}
